@@ -1290,7 +1290,9 @@ def c19(ctx):
                 st['verdict-agree'] += 1
             continue
         if cv == 'ok':
-            iout = sorted(ckv['out'].replace('21', '20').split(',')); mout = sorted(mf['out'].split(','))
+            # with treatErrorAsTerminal the error the collection returns becomes a TerminalError output (code 21)
+            tet = ckv.get('tet') == '1'
+            iout = sorted(ckv['out'].split(',')); mout = sorted(('21' if (x == '20' and tet) else x) for x in mf['out'].split(','))
             if ckv['in'] != mf['in'] or iout != mout:
                 st['flows-DIFFER'] += 1
                 ctx.violations.append(('condensed provider asks for %s and returns %s; the model says %s / %s (case %d)' % (ckv['in'], ckv['out'], mf['in'], mf['out'], k),
